@@ -28,7 +28,7 @@ func TestWorker(t *testing.T) {
 			}
 			res := RunCase(t, c, trace)
 			ev := spec.Check(res)
-			ro := &work.RunOut{Case: c, Seed: c.Seed, Hash: fmt.Sprintf("%016x", res.Sim.Hash), Steps: res.Sim.Steps, Switches: res.Sim.Switches,
+			ro := &work.RunOut{Case: c, Seed: c.Seed, Hash: fmt.Sprintf("%016x", res.Sim.Hash^ev.AuxHash), Steps: res.Sim.Steps, Switches: res.Sim.Switches,
 				SimNS: res.Sim.SimEnd.Sub(res.Sim.SimStart).Nanoseconds(), Evaluations: ev.Evaluations, Inconclusive: ev.Inconclusive,
 				Nontrivial: ev.Nontrivial, Strategy: c.Sim.Strategy, Probes: map[string]int{}, Faults: ev.Faults, Foreign: ev.Foreign,
 				Pairs: res.Sim.SwitchPairs, Mine: ev.Mine, Details: map[string]string{}}
